@@ -176,7 +176,9 @@ TkE(e) ==
     [] e.k = "lit"  -> TypeToks(e.s) \o (IF e.s = "" THEN <<TokB("{", "r", "L")>> \o Tail(Braced(e.a)) ELSE Braced(e.a))
     [] e.k = "al"   -> <<TokG("[", "r")>> \o Exprs0(e.a) \o <<TokG("]", "l")>>
     [] e.k = "ml"   -> TypeToks("map") \o Braced([i \in DOMAIN e.a |-> Nd("kv", "", 0, <<Str("dq", <<e.y[i]>>), e.a[i]>>, E0, E0, E0, E0)])
-    [] e.k = "st"   -> <<Tok(e.s)>> \o Braced([i \in DOMAIN e.a |-> IF e.y = E0 THEN e.a[i] ELSE Nd("kv", "", 0, <<Id(e.y[i]), e.a[i]>>, E0, E0, E0, E0)])
+    [] e.k = "st"   -> IF e.y = E0          \* positional: the interpreter takes no line end between the values
+                       THEN <<Tok(e.s), TokG("{", "b")>> \o Exprs0(e.a) \o <<TokG("}", "l")>>
+                       ELSE <<Tok(e.s)>> \o Braced([i \in DOMAIN e.a |-> Nd("kv", "", 0, <<Id(e.y[i]), e.a[i]>>, E0, E0, E0, E0)])
     [] e.k = "kv"   -> TkE(e.a[1]) \o <<TokG(":", "l")>> \o TkE(e.a[2])
     [] e.k = "conv" -> <<Tok(e.s), TokG("(", "b")>> \o TkE(e.a[1]) \o <<TokG(")", "l")>>
     [] e.k = "ifx"  -> <<Tok("if")>> \o TkE(e.a[1]) \o <<Tok("{")>> \o TkE(e.a[2]) \o <<Tok("}"), Tok("else"), Tok("{")>> \o TkE(e.a[3]) \o <<Tok("}")>>
